@@ -332,7 +332,7 @@ func classOf(rejects []proto.Reject) string {
 
 // runParties drives the round-by-round API (messages travel as CBOR bytes) and records what happened.
 func runParties(ev map[string]any, ps []proto.Party) bool {
-	res := proto.Run(ps, nil, nil)
+	res := proto.Run(ps, signTamper, signObs)
 	ev["started"] = true
 	ev["rejects"], ev["stop"], ev["completed"] = rejectsJ(res.Rejects), res.StopRound, ad.IDsU(res.Completed)
 	ev["class"] = classOf(res.Rejects)
